@@ -504,7 +504,7 @@ class Parser(ABC):
             yield Source(path=Path(), text=self.source)
         elif isinstance(self.source, Path):  # pragma: no cover
             if self.source.is_dir():
-                for path in sorted(self.source.rglob("*"), key=lambda p: p.name):
+                for path in sorted(self.source.rglob("*"), key=lambda p: (p.name, p.as_posix())):
                     if path.is_file():
                         yield Source.from_path(path, self.base_path, self.encoding)
             else:
